@@ -740,16 +740,24 @@ func genSDef(r *hx.Rand, o genOpts) *SDef {
 	d.Query = "Query"
 	if r.Chance(1, 3) {
 		m := TypeDef{Kind: "object", Name: "Mutation", Desc: g.desc()}
+		if r.Chance(1, 3) {
+			m.Feat = g.featSet() // a gated root type: introspected as absent without its features
+			g.tfeat[m.Name] = m.Feat
+		}
 		for i, k := 0, r.Range(1, 3); i < k; i++ {
-			m.Fields = append(m.Fields, g.field(g.name("m", i), nil, i > 0))
+			m.Fields = append(m.Fields, g.field(g.name("m", i), m.Feat, i > 0))
 		}
 		add(m)
 		d.Mutation = "Mutation"
 	}
 	if r.Chance(1, 4) {
 		s := TypeDef{Kind: "object", Name: "Subscription", Desc: g.desc()}
+		if r.Chance(1, 3) {
+			s.Feat = g.featSet()
+			g.tfeat[s.Name] = s.Feat
+		}
 		for i, k := 0, r.Range(1, 2); i < k; i++ {
-			s.Fields = append(s.Fields, g.field(g.name("s", i), nil, i > 0))
+			s.Fields = append(s.Fields, g.field(g.name("s", i), s.Feat, i > 0))
 		}
 		add(s)
 		d.Subscription = "Subscription"
